@@ -155,12 +155,16 @@ def _one_side(case, asynchronous):
     ev = []
     log = ev.append if asynchronous else (lambda e: None)
 
+    run = {'cur': 0, 'max': 0}     # invocations of the worker function that are under way (C08)
+
     def compute(x):
         i = x - off
         calls[i] = calls.get(i, 0) + 1
         if not 0 <= i < n:
             return ('fed-unprocessed-input', i)
         log(('start', i))
+        run['cur'] += 1
+        run['max'] = max(run['max'], run['cur'])
         try:
             for _ in range(dur[i]):
                 detsched.yield_here('work')
@@ -168,6 +172,7 @@ def _one_side(case, asynchronous):
                 raise WorkError(i)
             return ('y', i)
         finally:
+            run['cur'] -= 1
             log(('finish', i))
 
     class LoggingTPE(_OrigTPE):
@@ -184,11 +189,16 @@ def _one_side(case, asynchronous):
         calls[i] = calls.get(i, 0) + 1
         if not 0 <= i < n:
             return ('fed-unprocessed-input', i)
-        for _ in range(dur[i]):
-            await asyncio.sleep(0)
-        if i in re:
-            raise WorkError(i)
-        return ('y', i)
+        run['cur'] += 1
+        run['max'] = max(run['max'], run['cur'])
+        try:
+            for _ in range(dur[i]):
+                await asyncio.sleep(0)
+            if i in re:
+                raise WorkError(i)
+            return ('y', i)
+        finally:
+            run['cur'] -= 1
 
     def pre(x):
         i = x - BASE
@@ -337,15 +347,26 @@ def _one_side(case, asynchronous):
     v, e, s = detsched.run(main, chooser, max_steps=case.get('max_steps', 300000))
     if asynchronous and e is None:
         ev.append(('final',))
+    calls['__max_running__'] = run['max']
     return v, e, s, out, calls, ev
 
 
 def run_case(case):
     av, ae, as_, aout, acalls, aev = _one_side(case, True)
     sv, se, ss, sout, scalls, _ = _one_side(case, False)
-    res = dict(events=aev, steps=[as_.steps, ss.steps], switches=as_.switches, monitors=[],
+    amax, smax = acalls.pop('__max_running__', 0), scalls.pop('__max_running__', 0)
+    res = dict(max_running=[amax, smax], events=aev, steps=[as_.steps, ss.steps], switches=as_.switches, monitors=[],
                out=None, end=None, sync_out=None, sync_end=None)
     mon = res['monitors']
+    if case['kind'] in ('apmap_thread', 'pmap_async'):
+        # C08: no more than `concurrency` invocations of the worker function at any time (async variant, sync reference)
+        for side, mx in (('async', amax), ('sync', smax)):
+            if mx > case['conc']:
+                what = {'apmap_thread': {'async': 'AsyncStream.parmap(sync worker)', 'sync': 'Stream.parmap(sync worker)'},
+                        'pmap_async': {'async': 'Stream.parmap(async worker)', 'sync': 'Stream.parmap(sync worker)'}}[case['kind']][side]
+                within = case['kind'] == 'pmap_async' and side == 'async' and mx <= 2 * case['conc'] + 3   # F35
+                mon.append(dict(prop='C08', rule='concurrency-async-worker-within-capacity' if within else 'concurrency',
+                                detail=f'{what}: {mx} invocations of the worker function under way at the same time, concurrency={case["conc"]}'))
     if se is not None:
         # the reference itself failed: not a C16 verdict unless the async side differs; report as its own rule
         res['sync_error'] = repr(se)
